@@ -14,7 +14,7 @@ def jobs(tier):
 
 
 def keep(name, ob):
-    return True
+    return "/C11/" not in name  # what a front-end returns is C11's business
 
 
 def run(tier, seed, only=None):
